@@ -11,7 +11,7 @@ set_option linter.unusedSectionVars false
 set_option linter.unusedVariables false
 
 namespace Anko
-variable [FOps]
+variable [FOps] [Prov]
 
 /-- `err` is not one of the three control sentinels -/
 def NoSig (s : St) : Prop := s.err ≠ some .brk ∧ s.err ≠ some .cont ∧ s.err ≠ some .ret
